@@ -66,6 +66,10 @@ CHECKS = {
          "Index safety at proof level, quality PARTIAL BY NATURE. Lean theorems over the index-bookkeeping model: every update of the left/right index sets by a decoded pivot (np.unravel_index) keeps every multi-index inside its mode sizes; every row of every eval_index matrix has length d and column k in [0, N[k]); lifted by an invariant over the exact loop schedule of dmrg_cross (init pass, then LR/RL sweeps, any number of sweeps, any order d) to ALL function calls of every run, given only that _maxvol returns row numbers below the number of rows (dmrg_cross_calls_inRange). "
          "Tie: every index matrix handed to the user function and every index-set update observed on real runs is replayed through the Lean model and compared EXACTLY (≈200 events per run); the oracle checks dtype, shape M×d, column ranges, and for function_interpolate that every value handed to the function is an actual entry of the argument tensors. Approximation quality (kind K) is MONITORED (C = 50).",
          TB + "_maxvol's pivot range is an assumption on torch's LU (checked per call by the range oracle); approximation quality only monitored (known finding for mostly-zero targets)", "§5 C14"),
+ "C16": ("proof",
+         "Lean theorems over the model of manifold.py: `_delta2cores` represents exactly the sum of the d tangent terms L_0…L_{k-1} δ_k R_{k+1}…R_{d-1} (full_delta2cores) with interior ranks exactly twice those of x (ranks_twice / ranks_project_le); the projection is linear in z at the level of the represented tensor (project_add, project_smul, for z, w of arbitrary ranks); it fixes the base point given only left-orthonormality of the gauge (proj_fixed, gauge conditions as algebraic hypotheses). "
+         "Tie: `_delta2cores` compared exactly on integer cores; for riemannian_projection the gauges computed by the implementation are captured and the model's projection (exact rationals) is compared with the real one (1e-9); the six identities of the property (linear, idempotent, self-adjoint, fixes x, residual orthogonal, rank <= 2r) and riemannian_gradient = P(Euclidean gradient) for three function families are checked numerically on every case.",
+         TB + "idempotence / self-adjointness / residual orthogonality are numerical oracle checks (they follow from full_delta2cores + orthonormal gauges); QR contract; autograd", "§5 C16"),
  "C17": ("proof",
          "PARTIAL BY NATURE. Lean theorems about the C++ rank selection (counting-down loop of cpp/ortho.h): rank in [1,len] and discarded energy < eps² for eps>0, it is the least rank with strictly smaller tail, it coincides with the Python rank_chop except at exact ties (where it keeps one more value) and Python's rank <= C++'s; documented difference at eps <= 0. "
          "Tie: the extension is rebuilt from /repo/cpp on every source change (plus a 5-line verification-only shim exposing rank_chop) and C++ rank_chop is compared exactly with the model; both backends are run on the same systems / products (all preconditioners, with/without guess): same inputs accepted/rejected, both satisfy the C11/C12 contracts, mutual residual distance within them (MONITORED, kind K).",
